@@ -25,4 +25,5 @@ def run(ctx, res):
     r2.rule_presence(S, res, {"pre", "online"}, cs)
     r2.rule_every_element(S, res, {"pre", "online"}, cs)
     r2.rule_unconditional(S, res, {"pre", "online"}, cs)
+    r2.rule_per_element(S, res, {"pre", "online"}, cs)
     r2.rule_verified(S, res, {"online"}, labs)
